@@ -44,10 +44,12 @@ func init() {
 		for i := 1; i < sl.Len; i++ {
 			for j := i; j > 0; j-- {
 				x, y := (*sl.Arr)[sl.Off+j].(*StrV), (*sl.Arr)[sl.Off+j-1].(*StrV)
+				var lt *Term
 				if !isPlainB(x) || !isPlainB(y) {
-					it.fail("sort.Strings on opaque strings")
+					lt = it.strLessOpaque(x, y)
+				} else {
+					lt, _ = it.bytesLess(x.Bytes, y.Bytes)
 				}
-				lt, _ := it.bytesLess(x.Bytes, y.Bytes)
 				if !it.p.branch(lt) {
 					break
 				}
